@@ -84,6 +84,73 @@ mod kani_harness {
 		kani::cover!(a.z != b.z && a.z > 8);
 	}
 
+	fn blk_at(z: u8) -> Blk {
+		let blocks = if z <= 8 { 1u32 } else { 1u32 << (z - 8) };
+		let bx: u32 = kani::any();
+		let by: u32 = kani::any();
+		kani::assume(bx < blocks && by < blocks);
+		let local: [u8; 4] = kani::any();
+		kani::assume(local[0] <= local[2] && local[1] <= local[3]);
+		if z < 8 {
+			let m = (1u32 << z) - 1;
+			kani::assume(local[2] as u32 <= m && local[3] as u32 <= m);
+		}
+		Blk { z, bx, by, local }
+	}
+
+	// C16: the same, cut down to what finishes: levels concrete per instance, block positions and partial boxes symbolic;
+	// acceptance + exact lookup only (coverage is a separate instance)
+	fn sparse_accept<const ZA: u8, const ZB: u8, const COVERAGE: bool>() {
+		let a = blk_at(ZA);
+		let b = blk_at(ZB);
+		kani::assume(!(ZA == ZB && a.bx == b.bx && a.by == b.by));
+		let mut bytes = Vec::with_capacity(66);
+		encode_block(&mut bytes, a.z, a.bx, a.by, a.local, 66, 100, 10);
+		encode_block(&mut bytes, b.z, b.bx, b.by, b.local, 176, 50, 5);
+		let idx = ok(BlockIndex::from_blob(Blob::from(bytes)));
+		assert!(idx.is_some(), "a valid sparse block index is rejected");
+		let idx = idx.unwrap();
+		assert!(idx.len() == 2);
+		let ka = TileCoord3 { x: a.bx, y: a.by, z: a.z };
+		let ba = idx.get_block(&ka);
+		assert!(ba.is_some(), "encoded block not found");
+		let ba = ba.unwrap();
+		assert!(ba.get_tiles_range().offset == 66 && ba.get_tiles_range().length == 100 && ba.get_index_range().offset == 166 && ba.get_index_range().length == 10);
+		let g = ba.get_global_bbox();
+		assert!(g.level == a.z && g.x_min == a.bx * 256 + a.local[0] as u32 && g.x_max == a.bx * 256 + a.local[2] as u32);
+		assert!(g.y_min == a.by * 256 + a.local[1] as u32 && g.y_max == a.by * 256 + a.local[3] as u32);
+		if COVERAGE {
+			let pyr = idx.get_bbox_pyramid();
+			let (px, py): (u32, u32) = (kani::any(), kani::any());
+			if g.x_min <= px && px <= g.x_max && g.y_min <= py && py <= g.y_max {
+				assert!(pyr.contains_coord(&TileCoord3 { x: px, y: py, z: a.z }), "coverage misses a stored tile");
+			}
+			if ZA != ZB {
+				assert!(pyr.get_level_bbox(a.z) == g, "coverage of a level with one block differs from that block's box");
+			}
+			std::mem::forget(pyr);
+		}
+		std::mem::forget(idx);
+		kani::cover!(ZA != ZB || a.bx + 1 < b.bx, "blocks that are not neighbours");
+	}
+	macro_rules! sparse {
+		($name:ident, $za:expr, $zb:expr, $cov:expr, $unw:expr) => {
+			#[kani::proof]
+			#[kani::unwind($unw)]
+			#[kani::stub(std::fmt::format, crate::verif_kani::stubs::fmt_format)]
+			#[kani::stub(std::backtrace::Backtrace::capture, crate::verif_kani::stubs::backtrace_capture)]
+			#[kani::stub(u32::pow, crate::verif_kani::stubs::u32_pow)]
+			fn $name() {
+				sparse_accept::<$za, $zb, $cov>();
+			}
+		};
+	}
+	sparse!(c16_block_index_sparse_accept_12_12, 12, 12, false, 8);
+	sparse!(c16_block_index_sparse_accept_5_12, 5, 12, false, 8);
+	sparse!(c16_block_index_sparse_accept_31_31, 31, 31, false, 8);
+	sparse!(c16_block_index_sparse_coverage_12_12, 12, 12, true, 36);
+	sparse!(c16_block_index_sparse_coverage_5_12, 5, 12, true, 36);
+
 	// C19: arbitrary bytes (0, 1, 2 records; odd lengths)
 	fn c19_from_blob<const N: usize>() {
 		let bytes: [u8; N] = kani::any();
